@@ -12,9 +12,11 @@ from pvf.core import alpha, normal  # noqa
 
 out = {}
 nout = {}
+attrs = set()
 for f in sorted(glob.glob("/repo/paramiko/*.py")):
     mod = os.path.basename(f)[:-3]
     tree = ast.parse(open(f).read())
+    attrs |= normal.attr_names(tree)
     for q, fn in alpha.functions_of(tree, mod):
         nout[q] = normal.entry_for(fn)
         order = alpha.function_locals(fn)
@@ -22,5 +24,6 @@ for f in sorted(glob.glob("/repo/paramiko/*.py")):
             continue
         out[q] = {"hash": alpha.normal_hash(fn, order), "names": order}
 json.dump(out, open(alpha.TABLE, "w"), indent=0, sort_keys=True)
+nout["__attrs__"] = sorted(attrs)
 json.dump(nout, open(normal.TABLE, "w"), indent=0, sort_keys=True)
 print("functions with locals:", len(out), "functions:", len(nout))
